@@ -1,0 +1,6 @@
+//go:build verif
+
+package cmd
+
+//@ func toMultiAlignCmd.RunE entry
+//@   modifies everything
